@@ -102,6 +102,9 @@ SPEC = {
         _equiv("c12_equiv_same", "B carries A's slice index (conflicting slices); A and B symmetric, so both arrival orders of every pair are covered", Q, 3, "blockstore equivocation/same slice"),
         _equiv("c12_equiv_last", "A and B carry different slice indices (last-slice markers); A and B symmetric, so both arrival orders are covered; the class 'A not last, B last at a lower index' is excluded from the completeness direction here and checked by c12_lastorder", Q, 4, "blockstore equivocation/last-slice markers"),
         _equiv("c12_lastorder", "A not marked last, B marked last at a lower slice index (arrival order 'higher slice first')", Q, 1, "blockstore equivocation/last-slice marker below a received slice"),
+        dict(_equiv("c12_last3", "", T, 4, "blockstore equivocation/last-slice marker after two slices"),
+             bounds="fresh BlockData; three validated data shreds of three different slice indices (each < 1024; payloads fixed, pairwise different): A and B unmarked, then C marked last; every relative order of the three indices",
+             timeout={"quick": 900, "thorough": 2400}, mem_gb=24),
         _equiv("c12_lastcache", "A marked last, B any other slice index", T, 1, "blockstore equivocation/rejected commitment cached"),
     ],
 }
